@@ -104,7 +104,8 @@ def check_case(ctx, binary, case):
             ctx.violation("qasm:oplist:" + kind, "listing line #%d is %s%r but the program performed %s%r" %
                           (k, name, qs, e["op"], want_q), case, files)
             return
-        if theta is not None and abs(theta - e["theta"]) > 1e-6 * max(1.0, abs(e["theta"])) + 5e-7:
+        # angles are printed with six decimals: half a unit in the last place, whatever the magnitude
+        if theta is not None and abs(theta - e["theta"]) > 5.0e-7 + 1e-12 * abs(e["theta"]):
             ctx.violation("qasm:angle", "listing line #%d prints angle %r, simulated %r" % (k, theta, e["theta"]),
                           case, files)
             return
